@@ -22,3 +22,20 @@ def verified_min(ctx, G, flow, kmax):
     req = "walkoracle " + common.toks(len(es), [[ids[u], ids[v]] for u, v in es], ids[st.source], ids[st.sink], len(fl), fl, kmax)
     out = ctx.model.run([req])[0].strip()
     return None if out == "NONE" else int(out)
+
+
+def verified_min_ign(ctx, G, flow, ign, kmax):
+    """the same with an ignore list (WalkOracle.min_wfd_model_ign, theorem min_wfd_model_ign_correct): least k <= kmax over the
+    decompositions whose walks pass an ignored edge at most as often as the model's repetition cap allows (the edge's own flow value
+    inside a strongly connected component, 1 outside) and explain the flow of every other base edge"""
+    import networkx as nx
+    import flowpaths as fp
+    st = fp.stDiGraph(G)
+    ids = {v: i for i, v in enumerate(st.nodes())}
+    es = list(st.edges()); ign = [tuple(e) for e in ign]
+    cap = [[ids[u], ids[v], (int(flow[(u, v)]) if nx.has_path(G, v, u) else 1)] for (u, v) in ign]
+    fl = [[ids[u], ids[v], int(flow[(u, v)])] for (u, v) in G.edges() if (u, v) not in set(ign)]
+    req = "walkoracleign " + common.toks(len(es), [[ids[u], ids[v]] for u, v in es], ids[st.source], ids[st.sink],
+                                         len(ign), [[ids[u], ids[v]] for u, v in ign], len(cap), cap, len(fl), fl, kmax)
+    out = ctx.model.run([req])[0].strip()
+    return None if out == "NONE" else int(out)
